@@ -95,6 +95,9 @@ class Req:
             hdrs.append((b"Connection", r.choice(NOCLOSE_SPELLINGS)))
         elif k == "notfound" and has_body:
             method = b"POST"
+        elif k == "notfound" and r.random() < 0.5:
+            # an extension method nobody registered a route for (no table at all for it): the fallback, with an empty parameter set
+            method = r.choice([b"PROPFIND", b"MKCOL", b"REPORT", b"purge", b"CONNECT"])
         if has_body:
             if self.framing == "fixed":
                 hdrs.append((b"Content-Length", b"%d" % len(self.body)))
